@@ -9,11 +9,17 @@ use std::sync::atomic::AtomicBool;
 use std::sync::{Arc, Mutex};
 
 pub fn run_cursor(bufsize: usize, evs: Vec<Ev>) -> String {
+    let evs_weight: usize = evs.iter().map(|e| match e { Ev::Dgram(a, d) => *a as usize + d.len(), _ => 1 }).sum();
     let r = catch(|| {
         let flag = Arc::new(AtomicBool::new(true));
         let sh = Arc::new(Mutex::new(Shared { script: evs.into(), ..Default::default() }));
         let ipc = ScriptIpc { sh: sh.clone(), flag: flag.clone() };
-        let mut buf = vec![0u8; bufsize];
+        // the caller's buffer starts wherever the caller's memory does: at an offset of 0..3 from a word
+        // boundary, chosen by the script (the result may not depend on it)
+        let off = evs_weight % 4;
+        let mut store = vec![0u8; bufsize + 8];
+        let base = (8 - (store.as_ptr() as usize % 8)) % 8;
+        let buf = &mut store[base + off..base + off + bufsize];
         let flag2 = flag.clone();
         let mut b = Backend::new(ipc, flag, &mut buf[..]);
         let mut out: Vec<String> = vec![];
@@ -26,6 +32,15 @@ pub fn run_cursor(bufsize: usize, evs: Vec<Ev>) -> String {
         // a stopped backend stays stopped: asking again yields nothing (and never re-delivers a message)
         if !flag2.load(std::sync::atomic::Ordering::SeqCst) {
             for _ in 0..3 { if let Some((m, a)) = b.next() { out.push(format!("AFTER-STOP:{}@{:x}", msg_str(&m), a)); } }
+            // ... and took nothing off the transport meanwhile: when the caller sets the flag again, the backend
+            // goes on with the datagram that follows the stop request
+            flag2.store(true, std::sync::atomic::Ordering::SeqCst);
+            let mut iters = 0usize;
+            while let Some((m, a)) = b.next() {
+                out.push(format!("R:{}@{:x}", msg_str(&m), a));
+                iters += 1;
+                if iters > 200_000 { return "NOPROGRESS".to_string(); }
+            }
         }
         if out.is_empty() { "OK -".to_string() } else { format!("OK {}", out.join(" ; ")) }
     });
